@@ -626,10 +626,8 @@ func multiIndexValidated(c *kit.Ctx, eng *bounds.Engine) (bool, string) {
 	}
 	multiT := types.NewPointer(p.Named("region", "multi"))
 	var errAlloc ssa.Value
-	for _, in := range recv.Blocks[0].Instrs {
-		if a, ok := in.(*ssa.Alloc); ok && a.Comment == "err" {
-			errAlloc = a
-		}
+	if a := resultAlloc(recv, 0); a != nil {
+		errAlloc = a
 	}
 	e := kit.PathFrom(unm, kit.PathQuery{
 		Stop: func(in ssa.Instruction) bool {
